@@ -178,6 +178,8 @@ def flatten_decls(top):
                 walk(sub, parts + [name], levels + [list(dims)], pend)
 
     def mk_spec(mode, v, lead, f):
+        if isinstance(v, dict) and "ref" in v:    # (element of) an array parameter
+            return {"form": "pref", "p": v["ref"], "el": v.get("el")}
         if isinstance(v, dict):     # parameter expression
             if mode == "each" or not isinstance(v["k"], list):
                 return {"form": "pscalar", "k": v["k"], "p": v["p"]}
@@ -189,6 +191,8 @@ def flatten_decls(top):
 
 
 def pexpr_text(v):
+    if "ref" in v:
+        return v["ref"] if v.get("el") is None else "%s[%d]" % (v["ref"], v["el"] + 1)
     if isinstance(v["k"], list):
         return "%s*%s" % (v["p"], lit(v["k"]))
     return "%s*%s" % (lit(v["k"]), v["p"])
@@ -271,6 +275,20 @@ def gen_program(rng, stream="main"):
                 elif has_q and len(dims) == 1:
                     f.cls_attrs[a] = ("plain", {"k": nested(rng, dims, -3, 3), "p": "q"})
                     feats.add("attr-param-vector")
+            if kind in ("alg", "input") and rng.random() < 0.3:
+                # attribute that refers to an array parameter declared earlier (needs _substitute_metadata)
+                ps = [x for k2, x in top.order if k2 == "f" and x.kind == "param" and x.typ == "Real"
+                      and len(x.dims) == 1 and x.value is not None]
+                free = [a for a in NUM_ATTRS if a not in f.cls_attrs]
+                if ps and free:
+                    same = [x for x in ps if x.dims == list(dims)]
+                    pp = rng.choice(same) if same and rng.random() < 0.7 else rng.choice(ps)
+                    if pp.dims == list(dims) and rng.random() < 0.8:
+                        f.cls_attrs[rng.choice(free)] = ("plain", {"ref": pp.name, "el": None})
+                        feats.add("attr-param-array")
+                    else:
+                        f.cls_attrs[rng.choice(free)] = ("each", {"ref": pp.name, "el": rng.randrange(pp.dims[0])})
+                        feats.add("attr-param-element")
             if rng.random() < 0.08 and kind == "alg":
                 f.cls_attrs["fixed"] = ("each", True)
             top.order.append(("f", f))
